@@ -113,7 +113,7 @@ def run(rep):
             items.append({"line": line, "text": text, "cfg": cfg, "lang": "en", "expected": c["expected"], "variant": var, "feat": feat,
                           "class_fn": cls, "nontrivial": line["form"] != "time_lit" or bool(line["z"]["name"])})
     forms.replay(rep, items, "c11.gen")
-    random_trace(rep, zd, 3000 if quick else 40000)
+    random_trace(rep, zd, 3000 if quick else 200000)
 
 
 def random_trace(rep, zd, n):
